@@ -17,27 +17,47 @@ struct RSession : Session
 int main(int argc, char **argv)
 {
   Persister *p; std::string tmpdir;
-  if (argc > 1 && !strcmp(argv[1], "file"))   // real FilePersister on a fresh temporary directory
+  const bool hv(argc > 1 && !strcmp(argv[1], "fileh"));   // fileh: each operation is preceded by (hd, hi) = file positions left by earlier calls
+  FilePersister *fpp = nullptr; std::map<unsigned, unsigned> rend; unsigned dlen = 0;
+  if (argc > 1 && (!strcmp(argv[1], "file") || hv))   // real FilePersister on a fresh temporary directory
   {
     char tmpl[] = "/tmp/vf_c26_XXXXXX"; const char *dir = mkdtemp(tmpl); if (!dir) { perror("mkdtemp"); return 3; }
-    FilePersister *fp = new FilePersister; if (!fp->initialise(dir, "s")) { printf("initialise failed\n"); return 3; } p = fp; tmpdir = dir;
+    FilePersister *fp = new FilePersister; if (!fp->initialise(dir, "s")) { printf("initialise failed\n"); return 3; } p = fp; fpp = fp; tmpdir = dir;
   }
   else p = new MemoryPersister;
   std::map<unsigned, std::string> ref; bool hasc = false; unsigned ca = 0, cb = 0; int bad = 0;
   alignas(16) static char sess_raw[sizeof(RSession) + 64]; Session *sess = reinterpret_cast<Session*>(sess_raw);   // opaque handle, as in the harness
-  for (int i = 2; i + 5 < argc; i += 6)
+  // positions: data descriptor after stored record hd (what get(hd) leaves; realised by that very call), index descriptor after the
+  // control slot (hi == 1, realised by re-putting the current control record) or at the end of the index file (hi == 2, lseek)
+  auto havoc = [&](unsigned hd, unsigned hi) {
+    if (!fpp) return;
+    if (hd && ref.count(hd)) { std::string t; fpp->get(hd, t); }
+    if (hi == 1 && hasc) fpp->put(ca, cb); else if (hi == 2) lseek(fpp->_iod, 0, SEEK_END);
+  };
+  const int step(hv ? 8 : 6);
+  int i = 2;
+  for (; i + step - 1 < argc; i += step)
   {
+    if (hv) havoc(strtoul(argv[i + 6], 0, 10), strtoul(argv[i + 7], 0, 10));
     unsigned op = atoi(argv[i]), a = strtoul(argv[i + 1], 0, 10), b = strtoul(argv[i + 2], 0, 10); char d[2] = { char(atoi(argv[i + 3])), char(atoi(argv[i + 4])) }; unsigned len = atoi(argv[i + 5]);
     unsigned last = ref.empty() ? 0 : ref.rbegin()->first;
-    if (op == 0) { bool ok = p->put(a, std::string(d, len)); bool exp = a != 0 && !ref.count(a); if (ok != exp) { ++bad; printf("op%d put(%u) returned %d expected %d\n", i / 6, a, ok, exp); } if (exp) ref[a] = std::string(d, len); }
+    if (op == 0) { bool ok = p->put(a, std::string(d, len)); bool exp = a != 0 && !ref.count(a); if (ok != exp) { ++bad; printf("op%d put(%u) returned %d expected %d\n", (i - 2) / step, a, ok, exp); } if (exp) { ref[a] = std::string(d, len); dlen += len; rend[a] = dlen; } }
     else if (op == 1) { p->put(a, b); hasc = true; ca = a; cb = b; }
-    else if (op == 2) { std::string to; bool ok = p->get(a, to); bool exp = a != 0 && ref.count(a); if (ok != exp || (exp && to != ref[a])) { ++bad; printf("op%d get(%u) hit=%d expected=%d bytes %s\n", i / 6, a, ok, exp, exp && to == ref[a] ? "equal" : "differ"); } }
-    else if (op == 3) { unsigned ga = 0, gb = 0; bool ok = p->get(ga, gb); if (ok != hasc || (hasc && (ga != ca || gb != cb))) { ++bad; printf("op%d control get ok=%d got (%u,%u) expected stored=%d (%u,%u)\n", i / 6, ok, ga, gb, hasc, ca, cb); } }
-    else if (op == 4) { unsigned s; unsigned r = p->get_last_seqnum(s); if (r != last) { ++bad; printf("op%d last=%u expected %u\n", i / 6, r, last); } }
-    else if (op == 5) { unsigned exp = 0; for (auto it = ref.rbegin(); it != ref.rend(); ++it) if (it->first >= a && it->first <= last) exp = it->first; unsigned r = p->find_nearest_highest_seqnum(a, last); if (r != exp) { ++bad; printf("op%d nearest(%u,%u)=%u expected %u\n", i / 6, a, last, r, exp); } }
+    else if (op == 2) { std::string to; bool ok = p->get(a, to); bool exp = a != 0 && ref.count(a); if (ok != exp || (exp && to != ref[a])) { ++bad; printf("op%d get(%u) hit=%d expected=%d bytes %s\n", (i - 2) / step, a, ok, exp, exp && to == ref[a] ? "equal" : "differ"); } }
+    else if (op == 3) { unsigned ga = 0, gb = 0; bool ok = p->get(ga, gb); if (ok != hasc || (hasc && (ga != ca || gb != cb))) { ++bad; printf("op%d control get ok=%d got (%u,%u) expected stored=%d (%u,%u)\n", (i - 2) / step, ok, ga, gb, hasc, ca, cb); } }
+    else if (op == 4) { unsigned s; unsigned r = p->get_last_seqnum(s); if (r != last) { ++bad; printf("op%d last=%u expected %u\n", (i - 2) / step, r, last); } }
+    else if (op == 5) { unsigned exp = 0; for (auto it = ref.rbegin(); it != ref.rend(); ++it) if (it->first >= a && it->first <= last) exp = it->first; unsigned r = p->find_nearest_highest_seqnum(a, last); if (r != exp) { ++bad; printf("op%d nearest(%u,%u)=%u expected %u\n", (i - 2) / step, a, last, r, exp); } }
     else { cb_recs.clear(); cb_done = 0; std::vector<std::pair<unsigned, std::string>> exp; for (auto& e : ref) if (e.first >= a && (b == 0 || e.first <= b)) exp.push_back(e);
            unsigned got = p->get(a, b, *sess, static_cast<bool (Session::*)(const Session::SequencePair&, Session::RetransmissionContext&)>(&RSession::rec_cb));
-           if (cb_recs != exp || got != exp.size() || cb_done != 1) { ++bad; printf("op%d range[%u,%u] visited %zu records (expected %zu), returned %u, completion signals %d\n", i / 6, a, b, cb_recs.size(), exp.size(), got, cb_done); } }
+           if (cb_recs != exp || got != exp.size() || cb_done != 1) { ++bad; printf("op%d range[%u,%u] visited %zu records (expected %zu), returned %u, completion signals %d\n", (i - 2) / step, a, b, cb_recs.size(), exp.size(), got, cb_done); } }
+  }
+  if (hv && i + 2 < argc)   // read-back probe after the last operation
+  {
+    havoc(strtoul(argv[i], 0, 10), strtoul(argv[i + 1], 0, 10)); const unsigned s(strtoul(argv[i + 2], 0, 10));
+    std::string to; bool ok = p->get(s, to); bool exp = ref.count(s);
+    if (ok != exp || (exp && to != ref[s])) { ++bad; printf("probe get(%u) hit=%d expected=%d bytes %s\n", s, ok, exp, exp && to == ref[s] ? "equal" : "differ"); }
+    unsigned ga = 0, gb = 0; bool okc = p->get(ga, gb); if (okc != hasc || (hasc && (ga != ca || gb != cb))) { ++bad; printf("probe control get ok=%d (%u,%u) expected stored=%d (%u,%u)\n", okc, ga, gb, hasc, ca, cb); }
+    off_t fl = lseek(fpp->_fod, 0, SEEK_END); if (fl != off_t(dlen)) { ++bad; printf("data file holds %ld bytes, stored records need %u\n", long(fl), dlen); }
   }
   if (!tmpdir.empty()) { delete p; unlink((tmpdir + "/s").c_str()); unlink((tmpdir + "/s.idx").c_str()); rmdir(tmpdir.c_str()); }
   printf("%s\n", bad ? "VIOLATED" : "ok");
